@@ -25,6 +25,9 @@ def cases(tier, seed):
     out = [dict(seed=seed * 1000003 + 100000 + i) for i in range(n)]
     nm = {"quick": 100, "thorough": 3000}[tier]
     out += [dict(seed=seed * 1000003 + 170000 + i, profile="mixed") for i in range(nm)]
+    nd = {"quick": 40, "thorough": 1200}[tier]
+    out += [dict(seed=seed * 1000003 + 180000 + i, profile="down") for i in range(nd)]
+    out += [dict(seed=seed * 1000003 + 190000 + i, profile="lookupfail") for i in range(nd)]
     return out
 
 
@@ -76,7 +79,8 @@ def check(res, tr, c09=False):
             continue
         if not fires or s in tr.unfired_at_horizon:
             wrote = any(any(contains_run(recs, pairs) for recs in r["payloads"].values()) for r in reqs)
-            if not wrote and cfg["batch_send"] and not cfg["batch_every_t"] and tr.stop_called is None:
+            if not wrote and cfg["batch_send"] and not cfg["batch_every_t"] and tr.stop_called is None \
+                    and s in getattr(tr, "queued_at_horizon", ()):
                 # still queued behind thresholds that were never met and no time limit: legitimate (C19's subject)
                 res.ev("queued_below_thresholds_without_time_limit")
                 continue
